@@ -548,7 +548,15 @@ type GlobalInv struct {
 	Origin string
 }
 
+// Guard: accesses to Type.Field (Field "*" = every field) need the lock OwnerType.MuField of the owner
+// object in scope (C20, only with Engine.LockMode).
+type Guard struct {
+	Pkg, Type, Field, OwnerType, MuField string
+	Except                              map[string]bool // with Field "*": fields that need no lock (immutable once the object is shared)
+}
+
 type SpecSet struct {
+	Guards     []Guard
 	GlobalInvs []GlobalInv
 	Contracts map[string]*Contract
 	Preds     map[string]*Pred
@@ -565,7 +573,7 @@ func NewSpecSet() *SpecSet {
 var directiveWords = map[string]bool{
 	"func": true, "requires": true, "ensures": true, "invariant": true, "loop": true,
 	"modifies": true, "pred": true, "axiom": true, "ghost": true, "assert": true, "assume": true,
-	"let": true, "arith": true, "globalinv": true, "loopinv": true, "nodefault": true, "pure": true, "opt": true, "trusted": true, "terminates": true,
+	"guard": true, "let": true, "arith": true, "globalinv": true, "loopinv": true, "nodefault": true, "pure": true, "opt": true, "trusted": true, "terminates": true,
 }
 
 // ParseSpecText parses the concatenated "//@" lines of one file. pkgPrefix is
@@ -772,6 +780,22 @@ func (ss *SpecSet) ParseSpecText(origin, pkgPrefix string, lines []string) error
 				return fmt.Errorf("%s: pred %s: %v", origin, name, err)
 			}
 			ss.Preds[name] = &Pred{Pkg: pkgPrefix, Name: name, Params: params, Body: body, Src: rest}
+			cur, curLoop = nil, nil
+		case "guard":
+			// guard Session.* by IRCServer.sessionsMu
+			parts := strings.Fields(rest)
+			except := map[string]bool{}
+			if len(parts) == 5 && parts[3] == "except" {
+				for _, x := range strings.Split(parts[4], ",") {
+					except[x] = true
+				}
+				parts = parts[:3]
+			}
+			if len(parts) != 3 || parts[1] != "by" || !strings.Contains(parts[0], ".") || !strings.Contains(parts[2], ".") {
+				return fmt.Errorf("%s: guard: want `guard Type.field by OwnerType.mutexfield`, got %q", origin, rest)
+			}
+			a, b := strings.SplitN(parts[0], ".", 2), strings.SplitN(parts[2], ".", 2)
+			ss.Guards = append(ss.Guards, Guard{Pkg: pkgPrefix, Type: a[0], Field: a[1], OwnerType: b[0], MuField: b[1], Except: except})
 			cur, curLoop = nil, nil
 		case "ghost":
 			name, params, res, err := parseSig(rest)
